@@ -11,6 +11,15 @@ PY = "/venv/bin/python"
 
 # property -> (technique, level text, level note, design ref)
 CLAIMED = {
+    "C14": ("TLA+ specification of which variables a Dataset-wide operation affects, the resulting dims and metadata (spec/MC_C14.tla) enumerated "
+            "by TLC; each scenario executed on a real Dataset and every variable compared with the DimArray operation (affected) or the original "
+            "(unaffected), plus the shared-axes rule on the result",
+            "TLC enumerates Datasets of 1-2 (thorough 1-3) variables from a pool of 7 dimension lists (0-d, reordered, partially overlapping) x 24 "
+            "operation classes (indexing forms, five reductions, take_axis, sort_axis, reindex_axis with and without fill, interp_axis inside / outside "
+            "the range, ds+ds, ds*scalar, scalar-ds, -ds, stack_ds, concatenate_ds, construction from misaligned arrays) x every dataset dimension by "
+            "name and position. The per-variable oracle is the DimArray operation itself, as the property states.",
+            "Trusted: TLC, NumPy, and the DimArray operations decided by C01-C18. Known finding K03 is reported.",
+            "5 (C14)"),
     "C16": ("TLA+ state machine of attribute routing (spec/AttrRouting.tla: attrs dictionary, instance dictionary, dimension labels; actions "
             "set/get/del/direct-write over five name classes; action properties NeverEnters / Unreachable / PublicRoundTrip / DimIsLabels) "
             "model-checked by TLC, every edge replayed on DimArray, Dataset and Axis; propagation table (spec/MC_C16.tla) executed per operation class",
